@@ -88,6 +88,68 @@ func main() {
 			replace[src] = dst
 		}
 	}
+	// yield points for the concurrency engine (E7): a call of the hook variable VerifYield
+	// (a no-op unless the harness sets it) is inserted in api.go in front of the statements
+	// between which the handlers release all locks: after the lookup of the proxy, before
+	// the defaults are read, before the effect call
+	{
+		src := filepath.Join(*repo, "api.go")
+		if b, err := os.ReadFile(src); err == nil {
+			starts := []string{"input := Proxy{Listen:", "err = proxy.Update(", "toxic, err := proxy.Toxics.AddToxicJson(",
+				"toxic, err := proxy.Toxics.UpdateToxicJson(", "err = proxy.Toxics.RemoveToxic(", "err = server.Collection.Add(",
+				"err := server.Collection.Remove("}
+			var out []string
+			n := 0
+			for i, line := range strings.Split(string(b), "\n") {
+				t := strings.TrimSpace(line)
+				for _, st := range starts {
+					if strings.HasPrefix(t, st) {
+						ind := line[:len(line)-len(strings.TrimLeft(line, "\t "))]
+						out = append(out, fmt.Sprintf("%sVerifYield(\"api.go:%d\")", ind, i+1))
+						n++
+					}
+				}
+				out = append(out, line)
+			}
+			dst := filepath.Join(*dir, "api.go")
+			if err := os.WriteFile(dst, []byte(strings.Join(out, "\n")), 0o644); err != nil {
+				fmt.Fprintln(os.Stderr, err)
+				os.Exit(1)
+			}
+			replace[src] = dst
+			sites = append(sites, fmt.Sprintf("api.go: %d yield points", n))
+		}
+	}
+	// every proxy object ever made is reported to the harness (E7 must be able to stop a
+	// listener whose proxy object is no longer registered): a call of the hook variable
+	// VerifNewProxy in front of NewProxy's `return proxy`
+	{
+		src := filepath.Join(*repo, "proxy.go")
+		if b, err := os.ReadFile(src); err == nil {
+			var out []string
+			in, n := false, 0
+			for _, line := range strings.Split(string(b), "\n") {
+				if strings.HasPrefix(line, "func NewProxy(") {
+					in = true
+				}
+				if in && strings.TrimSpace(line) == "return proxy" {
+					out = append(out, "\tVerifNewProxy(proxy)")
+					n++
+					in = false
+				}
+				out = append(out, line)
+			}
+			if n == 1 {
+				dst := filepath.Join(*dir, "proxy.go")
+				if err := os.WriteFile(dst, []byte(strings.Join(out, "\n")), 0o644); err != nil {
+					fmt.Fprintln(os.Stderr, err)
+					os.Exit(1)
+				}
+				replace[src] = dst
+				sites = append(sites, "proxy.go: NewProxy reports to VerifNewProxy")
+			}
+		}
+	}
 	// a file that exists only in the overlay: read-only accessors for the harness (package
 	// toxiproxy, build tag verif); nothing is written into /repo
 	shim := filepath.Join(*dir, "verif_export.go")
@@ -122,6 +184,13 @@ func VerifCounts(p *Proxy) (conns int, links int) {
 	p.Toxics.Unlock()
 	return
 }
+
+// VerifYield is called at the yield points the overlay inserts into api.go (between the
+// lock-free steps of a handler); the concurrency engine sets it to stretch those windows.
+var VerifYield = func(site string) {}
+
+// VerifNewProxy is told about every proxy object NewProxy makes.
+var VerifNewProxy = func(p *Proxy) {}
 
 // VerifEachConn calls f for every socket in the proxy's connection registry (the harness
 // uses it to shrink kernel buffers so that a non-reading peer blocks the proxy's writes after
